@@ -176,7 +176,9 @@ def ob_layer(report):
 def check(report, tier, only=None):
     report.trusted += ['governor: keyed GCRA rate limiter (quota arithmetic over DashMap and a TSC clock)', 'z3 5.1']
     report.outside += ['the quota arithmetic itself, positivity of the hint at replenishment instants (governor)', 'interleavings of concurrent requests']
-    for n, f in (('admission', ob_call), ('one_limiter', ob_layer)):
+    from props import towerglue
+    for n, f in (('admission', ob_call), ('one_limiter', ob_layer),
+                 ('poll_ready', lambda rep: towerglue.ob_poll_ready_transparent(rep, PROP, 'RateLimit', SRC))):
         if only and not any(s in n for s in only):
             continue
         f(report)
